@@ -996,6 +996,74 @@ def bond_change_only_pair(rng):
     return pg, sem.pg_relabel(other, random_bijection(rng, other))
 
 
+def stale_ligand_pg(rng, cls):
+    """a centre whose descriptor still names a ligand it is no longer bonded to (remove_bond keeps descriptors), where
+    that ligand has a twin: both are leaves of one hub atom, so exchanging them is an automorphism of the bonds but
+    not of the descriptor's atom set. 70 % of the descriptors are unspecified."""
+    pg = sem.pg_empty(cls)
+    ids = make_ids(rng, 8)
+    c, l1, l2, h, l4, x = ids[:6]
+    e_leaf = rng.choice([17, 9, 1])
+    for a, z in ((c, 6), (l1, rng.choice([1, 9])), (l2, rng.choice([1, 9, 35])), (h, rng.choice([15, 14, 7])), (l4, e_leaf), (x, e_leaf)):
+        pg["atoms"][a] = {"atom_type": z}
+    for u, v in ((c, l1), (c, l2), (c, h), (h, l4), (h, x)):
+        pg["bonds"][frozenset((u, v))] = {}
+    if rng.random() < 0.5:
+        pg["atoms"][ids[6]] = {"atom_type": 8}
+        pg["bonds"][frozenset((h, ids[6]))] = {}
+    lig = [l1, l2, h, l4]
+    rng.shuffle(lig)
+    d = ("Tetrahedral", (c, *lig), None if rng.random() < 0.7 else rng.choice((1, -1)))
+    if cls == "StereoCondensedReactionGraph" and rng.random() < 0.4:
+        pg["achange"][c] = {rng.choice(ROLES): d}
+    else:
+        pg["astereo"][c] = d
+    return pg
+
+
+def static_under_change_pair(rng):
+    """(a, b): a StereoCondensedReactionGraph in which one centre (atom or bond) carries BOTH a static descriptor and a stereo
+    change with all three entries (so the static descriptor is overridden in reactant, product and transition structure -
+    the state left behind when a stereo change is added to an imported graph without deleting the old descriptor);
+    b differs from a in nothing but that static descriptor (inverted, re-spelled inverted, or removed) - or is a renaming"""
+    cls = "StereoCondensedReactionGraph"
+    pg = sem.pg_empty(cls)
+    ids = make_ids(rng, 8)
+    x, y = ids[0], ids[1]
+    pg["atoms"][x] = {"atom_type": 6}
+    pg["atoms"][y] = {"atom_type": rng.choice([6, 14])}
+    pg["bonds"][frozenset((x, y))] = {}
+    atom_centre = rng.random() < 0.6
+    if atom_centre:
+        lig = ids[2:5]
+        for a, z in zip(lig, rng.sample([1, 9, 17, 35, 53], 3)):
+            pg["atoms"][a] = {"atom_type": z}
+            pg["bonds"][frozenset((x, a))] = {}
+        atoms = (x, y, *lig)
+        key, kstat, kchg, klass = x, "astereo", "achange", "Tetrahedral"
+    else:
+        lig = ids[2:6]
+        for a, z, c in zip(lig, rng.sample([1, 9, 17, 35, 8], 4), (x, x, y, y)):
+            pg["atoms"][a] = {"atom_type": z}
+            pg["bonds"][frozenset((c, a))] = {}
+        atoms = (lig[0], lig[1], x, y, lig[2], lig[3])
+        key, kstat, kchg, klass = frozenset((x, y)), "bstereo", "bchange", "AtropBond"
+    if rng.random() < 0.5:  # some spectator structure
+        pg["atoms"][ids[6]] = {"atom_type": 8}
+        pg["atoms"][ids[7]] = {"atom_type": 1}
+        pg["bonds"][frozenset((ids[6], ids[7]))] = {}
+    par = rng.choice((1, -1))
+    pg[kstat][key] = (klass, atoms, par)
+    pg[kchg][key] = {s_: (klass, atoms, rng.choice((1, -1))) for s_ in ROLES}
+    other = sem.pg_copy(pg)
+    how = rng.random()
+    if how < 0.5:
+        other[kstat][key] = (klass, atoms, -par)
+    elif how < 0.7:
+        del other[kstat][key]
+    return pg, sem.pg_relabel(other, random_bijection(rng, other))
+
+
 M61 = 2**61 - 1
 
 
